@@ -218,6 +218,9 @@ func checkInc(c Case, ev *evid.Collector, runs int) (*evid.Violation, string) {
 				add("sched:stepcap-not-judged")
 			}
 			viol = res.v
+			if traceEnv && i < 4 {
+				fmt.Fprintf(os.Stderr, "TRACE run %d: %s\n  events=%v flags=%v\n", i, res.trace, res.events, res.flags)
+			}
 			if !res.flags["ev:wait-both-ready"] && runs <= schedRepeat {
 				break // fully deterministic execution: once is enough
 			}
@@ -228,7 +231,7 @@ func checkInc(c Case, ev *evid.Collector, runs int) (*evid.Violation, string) {
 		if labels["ev:wait-both-ready"] || labels["ev:ctxdone-race-path"] || labels["ev:cancel-and-release-both-enabled"] {
 			add("ev:cancel-races-release")
 		}
-		nontrivial = labels["ev:cancel-races-release"] || labels["ev:multi-rollback"] || labels["ev:multi-blocked"]
+		nontrivial = labels["ev:cancel-races-release"] || labels["ev:multi-rollback"] || labels["ev:multi-2+queues-blocked"]
 	}
 	ls := make([]string, 0, len(labels))
 	for l := range labels {
